@@ -43,7 +43,10 @@ def _write_evidence(check, tier, seed, tally, wall, violations, extra_cov, known
         'coverage': cov, 'assumptions': list(getattr(check, 'ASSUMPTIONS', [])),
         'wall_s': round(wall, 2), 'violations': violations,
     }
-    path = os.path.join(core.VERIF, 'evidence', check.ID + '.json')
+    evdir = os.environ.get('VERIF_EVIDENCE_DIR') or (
+        os.path.join(core.VERIF, 'evidence') if os.path.realpath(core.SRC) == '/repo'
+        else os.path.join(core.VERIF, '.work', 'evidence-other-tree'))
+    path = os.path.join(evdir, check.ID + '.json')
     os.makedirs(os.path.dirname(path), exist_ok=True)
     tmp = path + '.tmp'
     with open(tmp, 'w') as fil:
